@@ -166,7 +166,7 @@ impl Engine for C04Engine {
         6600
     }
     fn thorough_cases(&self) -> usize {
-        80_000
+        50_000
     }
     fn run(&self, case: &Self::Case) -> Outcome {
         match case {
